@@ -50,6 +50,31 @@ pub struct Case {
     pub pkitchen: Option<usize>,
     #[serde(default)]
     pub pside: Option<usize>,
+    /// hand-shaped Thrift documents (text) for constructs the random grammar reaches too rarely
+    #[serde(default)]
+    pub ttext: Option<usize>,
+}
+
+/// Hand-shaped Thrift documents: (what it is about, files; the first file is the main one).
+pub fn thrift_text_docs() -> Vec<(&'static str, Vec<(String, String)>)> {
+    let f = |n: &str, t: &str| (n.to_string(), t.to_string());
+    vec![
+        (
+            "type cycles through containers next to members that cannot derive Hash / Ord",
+            vec![f(
+                "cycles.thrift",
+                "namespace rs demo.cycles\nstruct Branch { 1: required list<Tree> trees }\nstruct Tree { 1: optional Branch branch, 2: optional Weight weight }\nstruct Weight { 1: required double w }\nstruct RingA { 1: required list<RingB> next }\nstruct RingB { 1: required map<string, RingC> next }\nstruct RingC { 1: required list<RingA> next, 2: optional Weight weight }\nstruct Weight2 { 1: required map<string, double> m }\nstruct Tree2 { 1: optional Branch2 branch, 2: optional Weight2 weight }\nstruct Branch2 { 1: required list<Tree2> trees, 2: optional Leaf leaf }\nstruct Leaf { 1: optional Leaf2 l }\nstruct Leaf2 { 1: list<Leaf> ls }\nunion Pick { 1: Tree t, 2: RingA r, 3: Leaf l }\n",
+            )],
+        ),
+        (
+            "service names equal after case conversion, sharing method names, in a file with includes",
+            vec![
+                f("main.thrift", "namespace rs demo.svc\ninclude \"shared.thrift\"\ninclude \"more.thrift\"\nstruct Msg { 1: string text, 2: shared.Meta meta }\nservice EchoService { Msg echo(1: Msg m), void ping() }\nservice echo_service { Msg echo(1: Msg m, 2: more.Extra x), void ping() }\nservice ECHO_SERVICE extends shared.Base { Msg echo(1: Msg m) }\n"),
+                f("shared.thrift", "namespace rs demo.shared\nstruct Meta { 1: i64 ts }\nservice Base { void ping() }\nservice base { void ping() }\n"),
+                f("more.thrift", "namespace rs demo.more\ninclude \"shared.thrift\"\nstruct Extra { 1: shared.Meta meta }\n"),
+            ],
+        ),
+    ]
 }
 
 impl Shrink for Case {
@@ -130,6 +155,42 @@ pub fn proto_side_docs() -> Vec<(&'static str, Vec<(String, String)>)> {
     ]
 }
 
+fn run_text_case(c: &Case, files: Vec<(String, String)>, slot: &str) -> Result<(), Fail> {
+    let dir = work_dir().join("c14").join(slot);
+    let _ = std::fs::remove_dir_all(&dir);
+    let idl = dir.join("idl");
+    for (name, text) in &files {
+        write_if_changed(&idl.join(name), text);
+    }
+    let out = dir.join("out").join("gen.rs");
+    let _ = std::fs::create_dir_all(out.parent().unwrap());
+    let main = idl.join(&files[0].0);
+    let mut args: Vec<String> = vec!["thrift".into(), out.to_string_lossy().into(), main.to_string_lossy().into(), "--include-dir".into(), idl.to_string_lossy().into()];
+    if c.cfg.split {
+        args.push("--split".into());
+    }
+    if c.cfg.keep {
+        for (n, _) in &files {
+            args.push("--keep-unknown".into());
+            args.push(idl.join(n).to_string_lossy().into());
+        }
+    }
+    if !c.cfg.change_case {
+        args.push("--no-change-case".into());
+    }
+    let b = run_vbuild(&args, Some(1 + (slot.len() % 4) * 2), 60);
+    let idl_text: String = files.iter().map(|(n, t)| format!("// {}\n{}\n", n, t)).collect();
+    if !b.ok {
+        let all = format!("{}\n{}", b.stderr, b.stdout);
+        return Err(Fail::new(&signature("builder", &all), format!("pilota-build failed ({}, config {}):\n{}\n--- IDL\n{}", b.status, c.cfg.tag(), vcore::evidence::truncate(&b.stderr, 700), vcore::evidence::truncate(&idl_text, 1500))));
+    }
+    if let Err(e) = typecheck(&out, &dir.join("tc"), "2021") {
+        return Err(Fail::new(&signature("rustc", &e), format!("generated Rust does not type-check (config {}):\n{}\n--- IDL\n{}", c.cfg.tag(), vcore::evidence::truncate(&e, 900), vcore::evidence::truncate(&idl_text, 1500))));
+    }
+    let _ = std::fs::remove_dir_all(&dir);
+    Ok(())
+}
+
 fn proto_files(c: &Case) -> Option<Vec<(String, String)>> {
     if let Some(r) = &c.proto {
         return Some(vcore::pschema::resolve_pdoc(r).print_files());
@@ -174,6 +235,9 @@ fn run_proto_case(c: &Case, files: Vec<(String, String)>, slot: &str) -> Result<
 }
 
 pub fn run_case(c: &Case, slot: &str) -> Result<(), Fail> {
+    if let Some(k) = c.ttext {
+        return run_text_case(c, thrift_text_docs()[k].1.clone(), slot);
+    }
     if let Some(files) = proto_files(c) {
         return run_proto_case(c, files, slot);
     }
@@ -293,7 +357,7 @@ pub fn run(ctx: &Ctx) -> i32 {
     let all_cfg = BCfg::all();
     for k in 0..vcore::kitchen::thrift_docs().len() {
         for c in &all_cfg {
-            cases.push(Case { raw: None, kitchen: Some(k), cfg: *c, proto: None, pkitchen: None, pside: None });
+            cases.push(Case { raw: None, kitchen: Some(k), cfg: *c, proto: None, pkitchen: None, pside: None, ttext: None });
         }
     }
     let n_hostile = ctx.tier.pick(70, 1500) as usize;
@@ -303,22 +367,28 @@ pub fn run(ctx: &Ctx) -> i32 {
         // two configurations per document, all sixteen for every tenth
         let pick: Vec<BCfg> = if i % 10 == 0 { all_cfg.clone() } else { vec![all_cfg[(i * 7) % 16], all_cfg[(i * 11 + 5) % 16]] };
         for c in pick {
-            cases.push(Case { raw: Some(raw.clone()), kitchen: None, cfg: c, proto: None, pkitchen: None, pside: None });
+            cases.push(Case { raw: Some(raw.clone()), kitchen: None, cfg: c, proto: None, pkitchen: None, pside: None, ttext: None });
         }
     }
     for (i, raw) in sample(&arb_raw_doc(GenOpts::default()), ctx.seed, "c14-plain", n_plain).into_iter().enumerate() {
         for c in [all_cfg[(i * 5) % 16], all_cfg[(i * 3 + 9) % 16]] {
-            cases.push(Case { raw: Some(raw.clone()), kitchen: None, cfg: c, proto: None, pkitchen: None, pside: None });
+            cases.push(Case { raw: Some(raw.clone()), kitchen: None, cfg: c, proto: None, pkitchen: None, pside: None, ttext: None });
         }
     }
     let pcfgs = [BCfg { split: false, keep: false, change_case: true, ignore_unused: false }, BCfg { split: true, keep: false, change_case: true, ignore_unused: false }, BCfg { split: false, keep: false, change_case: false, ignore_unused: false }];
     for k in 0..vcore::kitchen::proto_docs().len() {
         for c in pcfgs {
-            cases.push(Case { raw: None, kitchen: None, cfg: c, proto: None, pkitchen: Some(k), pside: None });
+            cases.push(Case { raw: None, kitchen: None, cfg: c, proto: None, pkitchen: Some(k), pside: None, ttext: None });
         }
     }
     for (i, praw) in sample(&vcore::pschema::arb_raw_pdoc(), ctx.seed, "c14-proto", ctx.tier.pick(30, 600) as usize).into_iter().enumerate() {
-        cases.push(Case { raw: None, kitchen: None, cfg: pcfgs[i % 3], proto: Some(praw), pkitchen: None, pside: None });
+        cases.push(Case { raw: None, kitchen: None, cfg: pcfgs[i % 3], proto: Some(praw), pkitchen: None, pside: None, ttext: None });
+    }
+    // hand-shaped Thrift text documents under four configurations each
+    for k in 0..thrift_text_docs().len() {
+        for c in [BCfg { split: false, keep: false, change_case: true, ignore_unused: false }, BCfg { split: true, keep: true, change_case: true, ignore_unused: false }, BCfg { split: false, keep: false, change_case: false, ignore_unused: false }, BCfg { split: true, keep: false, change_case: false, ignore_unused: false }] {
+            cases.push(Case { raw: None, kitchen: None, cfg: c, proto: None, pkitchen: None, pside: None, ttext: Some(k) });
+        }
     }
     // ---- run them on all cores
     let results: std::sync::Mutex<Vec<(usize, Result<(), Fail>)>> = Default::default();
@@ -349,6 +419,19 @@ pub fn run(ctx: &Ctx) -> i32 {
             rr.class_if(files.len() > 1, "protobuf: import");
             rr.class_if(text.contains("oneof"), "protobuf: oneof");
             rr.class_if(text.contains("syntax = \"proto2\""), "protobuf: proto2");
+            drop(rr);
+            if let Err(f) = r {
+                by_key.entry(f.key.clone()).or_insert((*i, f.clone()));
+            }
+            continue;
+        }
+        if let Some(k) = c.ttext {
+            let (about, files) = thrift_text_docs()[k].clone();
+            let mut rr = rec.borrow_mut();
+            let text: String = files.iter().map(|(n, t)| format!("// {}\n{}\n", n, t)).collect();
+            rr.case(fp(c), true, || json!({"config": c.cfg.tag(), "about": about, "idl": vcore::evidence::truncate(&text, 500)}));
+            rr.class("hand-shaped Thrift document");
+            rr.class(&format!("config {}", c.cfg.tag()));
             drop(rr);
             if let Err(f) = r {
                 by_key.entry(f.key.clone()).or_insert((*i, f.clone()));
@@ -409,7 +492,7 @@ pub fn run(ctx: &Ctx) -> i32 {
                     if i >= docs.len() {
                         break;
                     }
-                    let c = Case { raw: Some(docs[i].clone()), kitchen: None, cfg: all_cfg[(i * 5) % 16], proto: None, pkitchen: None, pside: None };
+                    let c = Case { raw: Some(docs[i].clone()), kitchen: None, cfg: all_cfg[(i * 5) % 16], proto: None, pkitchen: None, pside: None, ttext: None };
                     if run_case(&c, &format!("side{}", t)).is_err() {
                         hits.fetch_add(1, std::sync::atomic::Ordering::SeqCst);
                     }
@@ -429,7 +512,7 @@ pub fn run(ctx: &Ctx) -> i32 {
             continue;
         }
         rec.borrow_mut().class(&format!("side stream: {}", key));
-        let c = Case { raw: None, kitchen: None, cfg: pcfgs[0], proto: None, pkitchen: None, pside: Some(k) };
+        let c = Case { raw: None, kitchen: None, cfg: pcfgs[0], proto: None, pkitchen: None, pside: Some(k), ttext: None };
         if run_case(&c, "pside").is_err() {
             rec.borrow_mut().known_hit(key);
         }
